@@ -13,6 +13,7 @@ import Bita.Model.Output
 import Bita.Spec.InPlace
 import Bita.Model.Archive
 import Bita.Model.Blake2b
+import Bita.Model.Clone
 import Driver.Proto
 
 open Bita Driver
@@ -225,6 +226,47 @@ def handle (toks : List String) : Option String :=
     match tryInit Blake2b.hash [] (fileReader file) with
     | .ok a => some (showOutcome (fun (r : Nat × Nat × Nat) => s!"ok avg={r.1} mask={r.2.1} mean={r.2.2} index=?") a.banner)
     | o => some (showOutcome (fun _ => "ok") o)
+  -- compress <lib|cli> <config> <hashLen> <compr c.l|-> <md hex:hex,..|-> <data> <codec table hexraw:hexcomp,..|->
+  -- : the archive the writer produces (digest, and the header checksum)
+  | ["compress", writer, cfg, hl, co, md, data, table] => do
+    let compr ← (if co = "-" then some none else do
+      match ← parseNatList co "." with
+      | [c, l] => some (some (c, l))
+      | _ => none)
+    let md ← (if md = "-" then some [] else (splitNE md ",").mapM fun t =>
+      match t.splitOn ":" with
+      | [k, v] => do some (← parseHex k, ← parseHex v)
+      | _ => none)
+    let tab ← (if table = "-" then some [] else (splitNE table ",").mapM fun t =>
+      match t.splitOn ":" with
+      | [k, v] => do some (← parseHex k, ← parseHex v)
+      | _ => none)
+    let comp := fun (c : Bytes) => ((tab.find? (·.1 = c)).map (·.2)).getD c
+    let src ← parseData data
+    let arch := createArchive Blake2b.hash writer comp ⟨← parseConfig cfg, ← parseNat hl, compr, md⟩ src
+    some s!"archive={digest arch}"
+  -- clone <opts: s?v?b?|-> <pin hex|-> <archive hex> <prior hex> <seeds hex,hex|-> <decomp table hexstored:hexraw,..|->
+  | [cmd, o, pin, arch, prior, seeds, table] => do
+    if cmd ≠ "clone" ∧ cmd ≠ "clone-ro" then none
+    let short := cmd = "clone-ro"     -- result and output only
+    let opts : CloneOpts := { seedOutput := o.contains 's', verifyOutput := o.contains 'v', blockDev := o.contains 'b'
+                              headerPin := ← (if pin = "-" then some none else if pin = "e" then some (some []) else (parseHex pin).map some) }
+    let archive ← parseHex arch
+    let seeds ← (if seeds = "-" then some [] else (splitNE seeds ",").mapM parseHex)
+    let tab ← (if table = "-" then some [] else (splitNE table ",").mapM fun t =>
+      match t.splitOn ":" with
+      | [k, v] => do some (← parseHex k, ← parseHex v)
+      | _ => none)
+    let decomp := fun (_ : Nat) (stored : Bytes) (_ : Nat) => (tab.find? (·.1 = stored)).map (·.2)
+    let r := Clone.run Blake2b.hash decomp [] (honestReadAt archive) (honestReadChunks archive) opts (← parseHex prior) seeds
+    let res := match r.result with
+      | .ok => "ok"
+      | .err _ => "err"
+      | .panic _ => "panic"
+    let fetch := r.requests.filterMap fun q => match q with
+      | .readChunks rs => some (joinWith "," (rs.map fun (o, s) => s!"{o}:{s}"))
+      | _ => none
+    some s!"result={res} out={digest r.output}{if short then "" else s!" writes={joinWith "," ((Spec.writesOf r.log).map fun (o, d) => s!"{o}.{digest d}")} fetch={joinWith "|" fetch}"}"
   -- plan-safe <sizes> <O ids> <N ids> <ops> : is this op list (the implementation's) a safe plan
   -- in the sense of Spec.InPlace.safePlan?
   | ["plan-safe", sizes, o, n, ops] => do
